@@ -24,7 +24,7 @@ RULE = ('I2C EEPROM v0/v1: all channels / speeds / float32 trims incl. NaN and e
 ASSUMPTIONS = ['EEPROM layout: "0xBC", version, channel, speed, pitch trim, roll trim, [address hi, address lo32], sum mod 256',
                '1-wire layout: 0xEB, pins u32, vid, pid, crc32&0xFF | 0x00, len, TLV..., crc32&0xFF',
                'reads that would run past the 112-byte 1-wire memory fail on the device and are not generated']
-REQUIRED = ['mon.i2c_reads_of_other_memories_seen_by_the_element', 'mon.lh_config_writer_subsets_not_starting_at_zero_or_with_gaps', 'mon.i2c_roundtrip', 'mon.i2c_corruptions', 'mon.ow_roundtrip', 'mon.ow_corruptions', 'mon.lh_mem', 'mon.lh_yaml',
+REQUIRED = ['mon.loco_lists_read_again_after_all_anchors_were_removed', 'mon.i2c_reads_of_other_memories_seen_by_the_element', 'mon.lh_config_writer_subsets_not_starting_at_zero_or_with_gaps', 'mon.i2c_roundtrip', 'mon.i2c_corruptions', 'mon.ow_roundtrip', 'mon.ow_corruptions', 'mon.lh_mem', 'mon.lh_yaml',
             'mon.param_yaml', 'mon.poly4d', 'mon.led_timings', 'mon.led_timing_entries_around_the_end_marker', 'mon.deck_info', 'mon.loco', 'mon.loco2', 'mon.ow_all_lengths',
             'mon.compressed_trajectory_uploads', 'mon.lh_memory_to_file_to_memory']
 DESC_TIMEOUT = 900
@@ -752,6 +752,28 @@ def run_loco(desc, ctx):
             all(tuple(a.position) == p and bool(a.is_valid) == v for a, (p, v) in zip(mem.anchor_data, anchors))
         if not ok:
             ctx.violate('loco:anchor-list-parsed-wrongly', {'n': n, 'got': len(mem.anchor_data), 'done': fin})
+        # the same object is read again after the system has changed (anchors added, moved, removed - down to none)
+        for again in range(rnd.randint(1, 3)):
+            n2 = rnd.choice((0, 0, 1, rnd.randint(0, 16)))
+            h.image[0] = n2
+            anchors2 = []
+            for i in range(n2):
+                pos = tuple(struct.unpack('<f', fbits(rnd.uniform(-10, 10)))[0] for _ in range(3))
+                v = rnd.random() < 0.7
+                anchors2.append((pos, v))
+                h.image[0x1000 + 0x100 * i:0x1000 + 0x100 * i + 13] = struct.pack('<fff?', *pos, v)
+            fin2 = []
+            mem.update(lambda m: fin2.append(1))
+            ctx.evals()
+            ctx.count('mon.loco_lists_read_again_with_the_same_object')
+            if n2 == 0 and n > 0:
+                ctx.count('mon.loco_lists_read_again_after_all_anchors_were_removed')
+            ok = fin2 == [1] and mem.valid and mem.nr_of_anchors == n2 and len(mem.anchor_data) == n2 and \
+                all(tuple(a.position) == p and bool(a.is_valid) == v for a, (p, v) in zip(mem.anchor_data, anchors2))
+            if not ok:
+                ctx.violate('loco:anchor-list-parsed-wrongly:second-read-with-the-same-object',
+                            {'anchors_before': n, 'anchors_now': n2, 'got': len(mem.anchor_data), 'done': fin2})
+            n = n2
         # Loco 2
         ids = rnd.sample(range(256), rnd.randint(0, 16))
         act = rnd.sample(ids, rnd.randint(0, len(ids))) if ids else []
